@@ -308,100 +308,120 @@ def run(seed, tier, extra_cases=None, use_cache=True):
         models["MC_Chain"] = vlib.run_model("MC_Chain", "MC_Chain_fixed.cfg" if tier == "quick" else "MC_Chain_fixed_big.cfg",
                                             workers=8, timeout=3000)
     cs = extra_cases if extra_cases is not None else cases(seed, tier, models["MC_Reader"]["replays"])
-    reqs = []
-    for i, c in enumerate(cs):
-        base = {"code": c["code"], "file": c["file"], "reader": c["reader"]}
-        reqs.append(dict(base, id="%d/A" % i, config=c["config"], want=WANT))
-        reqs.append(dict(base, id="%d/B" % i, config=dict(c["config"], chainSourceMap=False), want=["effective_config"]))
-    resps = vlib.run_requests(reqs, nproc=vlib.NCPU)
-    if any((r or {}).get("outcome") == "bad_request" for r in resps):
-        raise vlib.ToolError("the driver could not decode a request")
-    t1 = time.time()
-    recs = []
+    # batches: driver -> records -> ND-JSON chunk files (a thorough run has ~100 000 cases x 2 calls)
+    os.makedirs(vlib.WORK, exist_ok=True)
+    nchunks = max(1, min(vlib.NCPU, len(cs) // 150))
+    paths = [os.path.join(vlib.WORK, "trace-map-%d-%d.ndjson" % (os.getpid(), q)) for q in range(nchunks)]
+    files = [open(pth, "w") for pth in paths]
     bycase = {}
-    for i, c in enumerate(cs):
-        rid = "m%d" % i
-        ra, rb = resps[2 * i], resps[2 * i + 1]
-        bycase[rid] = {"name": c["name"], "code": c["code"], "config": c["config"], "file": c["file"], "reader": c["reader"],
-                       "kind": c["kind"], "outcome": ra.get("outcome"), "error": ra.get("error"),
-                       "content": ra.get("content"), "key": [c["code"], c["config"], c["file"], c["reader"]]}
-        rec = vlib.static_record(rid, reqs[2 * i], ra, with_pos=True)
-        rec["kindref"] = c["kind"]
-        rec["parent"] = c["reader"]["parent"]
-        if rec["outcome"] != "ok" or rec.get("status") != "modified" or not rec.get("swc_out_ok", True):
-            rec["mapcase"] = False
-            recs.append(rec)
-            continue
-        content = ra["content"]
-        body, mtext, ntr = vlib.split_trailer(content)
-        lines = content.split("\n")
-        nonempty = [ln for ln in lines if ln.strip()]
-        last_nonempty = nonempty[-1] if nonempty else ""
-        # "ends with exactly one trailer": how many trailer lines close the file
-        ntr_end = 0
-        for ln in reversed(nonempty):
-            if ln.startswith(vlib.TRAILER):
-                ntr_end += 1
+    nrecs = 0
+    t1 = t0
+    td = 0.0
+    BATCH = 6000
+    for b0 in range(0, len(cs), BATCH):
+        bcs = cs[b0:b0 + BATCH]
+        ta = time.time()
+        reqs = []
+        for i, c in enumerate(bcs):
+            base = {"code": c["code"], "file": c["file"], "reader": c["reader"]}
+            reqs.append(dict(base, id="%d/A" % (b0 + i), config=c["config"], want=WANT))
+            reqs.append(dict(base, id="%d/B" % (b0 + i), config=dict(c["config"], chainSourceMap=False), want=["effective_config"]))
+        resps = vlib.run_requests(reqs, nproc=vlib.NCPU)
+        if any((r or {}).get("outcome") == "bad_request" for r in resps):
+            raise vlib.ToolError("the driver could not decode a request")
+        td += time.time() - ta
+        recs = []
+        for i, c in enumerate(bcs):
+            rid = "m%d" % (b0 + i)
+            ra, rb = resps[2 * i], resps[2 * i + 1]
+            bycase[rid] = {"name": c["name"], "code": c["code"], "config": c["config"], "file": c["file"], "reader": c["reader"],
+                           "kind": c["kind"], "outcome": ra.get("outcome"), "error": ra.get("error"),
+                           "content": ra.get("content"), "key": [c["code"], c["config"], c["file"], c["reader"]]}
+            rec = vlib.static_record(rid, reqs[2 * i], ra, with_pos=True)
+            rec["kindref"] = c["kind"]
+            rec["parent"] = c["reader"]["parent"]
+            if rec["outcome"] != "ok" or rec.get("status") != "modified" or not rec.get("swc_out_ok", True):
+                rec["mapcase"] = False
+                recs.append(rec)
+                continue
+            content = ra["content"]
+            body, mtext, ntr = vlib.split_trailer(content)
+            lines = content.split("\n")
+            nonempty = [ln for ln in lines if ln.strip()]
+            last_nonempty = nonempty[-1] if nonempty else ""
+            # "ends with exactly one trailer": how many trailer lines close the file
+            ntr_end = 0
+            for ln in reversed(nonempty):
+                if ln.startswith(vlib.TRAILER):
+                    ntr_end += 1
+                else:
+                    break
+            try:
+                mobj = json.loads(mtext) if mtext else None
+            except ValueError:
+                mobj = None
+            bbody, bmtext, _ = vlib.split_trailer(rb.get("content") or "")
+            try:
+                bobj = json.loads(bmtext) if bmtext else None
+            except ValueError:
+                bobj = None
+            ctoks = effective_tokens(mobj) if mobj and "mappings" in mobj else []
+            rtoks = effective_tokens(bobj) if bobj and "mappings" in bobj else []
+            # annotate the output tree with lookups in the emitted map; for C09 the un-chained map is the
+            # one that speaks about the input text, so C09 is judged on the B (un-chained) map
+            code_lines = c["code"].split("\n")
+            outside = 0
+            for t in rtoks:
+                if t["mapped"]:
+                    ln = t["sl"]
+                    if ln >= len(code_lines) or t["sc"] > len(code_lines[ln].rstrip("\r")) + 1:
+                        outside += 1
+            out_tree = rec["out"] if "nodes" not in rec["out"] else None
+            lk = MapLookup(rtoks)
+            if out_tree is not None:
+                annotate(out_tree, lk)
             else:
-                break
-        try:
-            mobj = json.loads(mtext) if mtext else None
-        except ValueError:
-            mobj = None
-        bbody, bmtext, _ = vlib.split_trailer(rb.get("content") or "")
-        try:
-            bobj = json.loads(bmtext) if bmtext else None
-        except ValueError:
-            bobj = None
-        ctoks = effective_tokens(mobj) if mobj and "mappings" in mobj else []
-        rtoks = effective_tokens(bobj) if bobj and "mappings" in bobj else []
-        # annotate the output tree with lookups in the emitted map; for C09 the un-chained map is the
-        # one that speaks about the input text, so C09 is judged on the B (un-chained) map
-        code_lines = c["code"].split("\n")
-        outside = 0
-        for t in rtoks:
-            if t["mapped"]:
-                ln = t["sl"]
-                if ln >= len(code_lines) or t["sc"] > len(code_lines[ln].rstrip("\r")) + 1:
-                    outside += 1
-        out_tree = rec["out"] if "nodes" not in rec["out"] else None
-        lk = MapLookup(rtoks)
-        if out_tree is not None:
-            annotate(out_tree, lk)
-        else:
-            for nd in rec["out"]["nodes"]:
-                nd.update(lk.at(nd["l"] - 1, nd["k"]) if nd.get("l", 0) > 0 else
-                          {"mf": False, "mx": False, "mm": False, "ml": 0, "mk": 0})
-        comments = ra.get("out_comments")
-        n_url_comments = sum(1 for t in (comments or []) if t.strip().startswith("# sourceMappingURL=")) \
-            if comments is not None else -1
-        rec.update({
-            "mapcase": True, "chain": bool(c["config"].get("chainSourceMap")), "keep_comments": bool(c["config"].get("comments")),
-            "usable": {True: "yes", False: "no", None: "either"}[c["usable"]],
-            "orig_used": bool(ra.get("orig_map_used")),
-            "map_version": int((bobj or {}).get("version", 0)) if isinstance((bobj or {}).get("version", 0), int) else 0,
-            "map_sources": [str(x) for x in (bobj or {}).get("sources", [])],
-            "basename": rust_file_name(c["file"]),
-            "map_outside": outside,
-            "ctoks": ctoks, "rtoks": rtoks, "otoks": c["otoks"],
-            "n_trailers": ntr_end, "trailer_last": last_nonempty.startswith(vlib.TRAILER),
-            "trailer_decodes": mobj is not None,
-            "n_url_comments": n_url_comments,
-            "body_same_as_unchained": body == bbody,
-            "had_ref": c["ref"] is not None,
-            "odd_name": c["name"].startswith("fname/"),
-        })
-        bycase[rid]["map"] = mtext
-        recs.append(rec)
+                for nd in rec["out"]["nodes"]:
+                    nd.update(lk.at(nd["l"] - 1, nd["k"]) if nd.get("l", 0) > 0 else
+                              {"mf": False, "mx": False, "mm": False, "ml": 0, "mk": 0})
+            comments = ra.get("out_comments")
+            n_url_comments = sum(1 for t in (comments or []) if t.strip().startswith("# sourceMappingURL=")) \
+                if comments is not None else -1
+            rec.update({
+                "mapcase": True, "chain": bool(c["config"].get("chainSourceMap")), "keep_comments": bool(c["config"].get("comments")),
+                "usable": {True: "yes", False: "no", None: "either"}[c["usable"]],
+                "orig_used": bool(ra.get("orig_map_used")),
+                "map_version": int((bobj or {}).get("version", 0)) if isinstance((bobj or {}).get("version", 0), int) else 0,
+                "map_sources": [str(x) for x in (bobj or {}).get("sources", [])],
+                "basename": rust_file_name(c["file"]),
+                "map_outside": outside,
+                "ctoks": ctoks, "rtoks": rtoks, "otoks": c["otoks"],
+                "n_trailers": ntr_end, "trailer_last": last_nonempty.startswith(vlib.TRAILER),
+                "trailer_decodes": mobj is not None,
+                "n_url_comments": n_url_comments,
+                "body_same_as_unchained": body == bbody,
+                "had_ref": c["ref"] is not None,
+                "odd_name": c["name"].startswith("fname/"),
+            })
+            bycase[rid]["map"] = mtext
+            recs.append(rec)
+        for q, rec in enumerate(recs):
+            files[(nrecs + q) % nchunks].write(json.dumps(rec, ensure_ascii=True) + "\n")
+        nrecs += len(recs)
+        del reqs, resps, recs
+    for f in files:
+        f.close()
+    t2 = time.time()
+    t1 = t0 + td
     t2 = time.time()
     vlib.log("map pipeline: %d cases; driver %.1fs normalise %.1fs" % (len(cs), t1 - t0, t2 - t1))
-    verdicts, st = vlib.validate_trace("TraceMap", "TraceMap.cfg", recs, "map")
+    verdicts, st = vlib.validate_trace_files("TraceMap", "TraceMap.cfg", paths, "map")
     t3 = time.time()
-    vlib.log("map pipeline: TLC validated %d records in %.1fs" % (len(recs), t3 - t2))
+    vlib.log("map pipeline: TLC validated %d records in %.1fs" % (nrecs, t3 - t2))
     byprop = {}
     for rid, prop, v, detail in verdicts:
         byprop.setdefault(prop, []).append((rid, v, detail))
-    res = {"verdicts": byprop, "cases": bycase, "stats": {"cases": len(cs), "records": len(recs),
+    res = {"verdicts": byprop, "cases": bycase, "stats": {"cases": len(cs), "records": nrecs,
            "tlc_states": st["states"], "tlc_distinct": st["distinct"], "wall": t3 - t0,
            "models": {k: {"states": v["states"], "distinct": v["distinct"], "replays": len(v["replays"]),
                           "wall": round(v["wall"], 1)} for k, v in models.items()}}}
